@@ -201,6 +201,34 @@ func runC19(b *mon.B) {
 			judge(hdr(typ, false), r.Bytes(5+r.Intn(70)), "random bytes", false)
 		}
 	}
+	// (7) the mismatch shows up in a FOLLOW-UP packet of a session that started fine
+	// (continuation pending): same verdicts are required
+	for k := 0; k < b.N(60, 3000); k++ {
+		typ := 1 + k%3
+		sid := r.U32()
+		h1 := rfc8907.Header{Major: 0xc, Minor: 0, Type: typ, Seq: 1, Session: sid}
+		srv.Plan.set(sid, planStep{Reply: &rawBody{B: []byte{1, 0, 0, 0, 0, 0}}, Next: true}, planStep{Reply: &rawBody{B: []byte{1, 0, 0, 0, 0, 0}}, Next: true})
+		_, _, invs, st, err := srv.step(conn, pktSpec{H: h1, Clear: c05Body(r, typ, 12, false)}.wire(serverKey))
+		if err != nil || st.Closed || len(invs) != 1 {
+			connNo++
+			conn = srv.dial(100+connNo, serverKey)
+			continue
+		}
+		ls := requestLayoutsOf[typ]
+		v := smallValue(r, ls[r.Intn(len(ls))])
+		if v.Layout == rfc8907.AuthenStart && v.Ints["authen_type"] == 1 {
+			v.Texts["data"] = fillText(r, v.Layout, "data", len(v.Texts["data"]), 1, false)
+		}
+		enc, _ := v.Encode()
+		h3 := rfc8907.Header{Major: 0xc, Minor: 0, Type: typ, Seq: 3, Session: sid}
+		if k%2 == 0 {
+			clientKey := []byte("other-" + r.Alnum(5))
+			h3.Length = uint32(len(enc))
+			judge(h3, rfc8907.Obfuscate(h3, serverKey, rfc8907.Obfuscate(h3, clientKey, enc)), "follow-up packet (seq 3) of an open session under another secret", false)
+		} else {
+			judge(h3, enc, "follow-up packet (seq 3) of an open session under the server's secret", true)
+		}
+	}
 	// (6) well-formed under the right key but inconsistent under the sibling layouts
 	for k := 0; k < b.N(60, 2000); k++ {
 		typ := 1 + k%3
